@@ -61,6 +61,16 @@ var (
 )
 
 func randomEmail(buf []byte) error {
+	// Too short for "local@domain.tld": keep the length and put '@' strictly inside when there is room for it.
+	if len(buf) < len("a@b.cd") {
+		if err := randomString(buf); err != nil {
+			return err
+		}
+		if len(buf) >= 3 {
+			buf[len(buf)/2] = '@'
+		}
+		return nil
+	}
 	// If the buffer is really short, choose only among 2-letter country TLDs so that we have some space for other parts.
 	tlds := allTLDs
 	if len(buf) < len("a@b.cdef") {
